@@ -10,7 +10,7 @@ oracle: a stable sorted std::vector twin inside the harness (independent of the 
        nodes (parent links, uniform depth, count <= capacity) and a counting memory manager (no leak after merges)."""
 import os
 
-GEN = ['gen_treenode.json', 'gen_node.json', 'gen_nodeops_i.json', 'gen_nodeops_c.json', 'gen_rebalance.json', 'gen_split.json', 'gen_ordered.json']
+GEN = ['gen_treenode.json', 'gen_node.json', 'gen_nodeops_i.json', 'gen_nodeops_c.json', 'gen_rebalance.json', 'gen_split.json', 'gen_ordered.json', 'gen_findfirst.json']
 
 #   id: (maxCap, step, blockCount, lin, multi, key, value(''=set), real layout, crew, checkVersion, memory manager, traits)
 #   key kinds: int = trivially relocatable; str = nothrow move, not trivially relocatable (short keys inside the SSO buffer,
@@ -535,7 +535,7 @@ def replay(ctx, rp):
 
 def run(ctx):
     scale = 1 if ctx.quick() else 8
-    ctx.trusted += ['tools/cxx2coq.py + clang 14 JSON AST for GetSplitItemIndex / GetCapacity / pvGetLeafMemPoolIndex / Node::AcceptBackItem, Remove, pvAcceptBackItem, pvRemove, pvInitIndexes, GetCount of both layouts incl. the std::copy / std::copy_backward range copies on the index table and the child array (translated as a parallel range copy; the standard no-overlap preconditions of the two algorithms are assumed) / the decision prefix of TreeSet::pvRebalance / the AddSegment trace of Relocator::pvSplitNode / pvIsOrdered(iter, iter); props/C02/astfacts.py (own walker over the same clang JSON AST) for the pvMergeFast if-chain of MergeTo, pvIsOrdered(set, set) and the statements of the root-collapse loop of pvRebalance; ASSUMED primitive: ItemTraits::ShiftNothrow(begin, shift) on the continuous item array rotates [begin, begin+shift] by one (its proof is C03); skipped: item creator / remover functors; validated through the shape and the node-level byte correspondence',
+    ctx.trusted += ['tools/cxx2coq.py + clang 14 JSON AST for GetSplitItemIndex / GetCapacity / pvGetLeafMemPoolIndex / Node::AcceptBackItem, Remove, pvAcceptBackItem, pvRemove, pvInitIndexes, GetCount of both layouts incl. the std::copy / std::copy_backward range copies on the index table and the child array (translated as a parallel range copy; the standard no-overlap preconditions of the two algorithms are assumed) / the decision prefix of TreeSet::pvRebalance / the AddSegment trace of Relocator::pvSplitNode / pvIsOrdered(iter, iter) / pvFindFirst(Node*, pred) both strategies / the CreateNode counts of pvSplitNode; props/C02/astfacts.py (own walker over the same clang JSON AST) for the pvMergeFast if-chain of MergeTo, pvIsOrdered(set, set) the statements of the root-collapse loop and the stop rule of the climbing loop of pvRebalance; ASSUMED primitive: ItemTraits::ShiftNothrow(begin, shift) on the continuous item array rotates [begin, begin+shift] by one (its proof is C03); skipped: item creator / remover functors; validated through the shape and the node-level byte correspondence',
                     'extraction: ExtrOcamlBasic only (no Extract Constant; Extraction Blacklist for module names), OCaml 4.13.1, zarith for decimal I/O only',
                     'g++ 12 -std=c++17, harness reaches private members via #define private public',
                     'the hand-written model coq/BTreeModel.v is tied to TreeSet.h by differential execution only (T-cor), on the listed configurations']
@@ -560,7 +560,9 @@ def run(ctx):
         if any(got.get(k) != v for k, v in exp.items()): fbad.append((cid, exp, got))
     ctx.stage('config-facts', not fbad and not ferr, ferr + ('; '.join('cfg %d expected %s got %s' % x for x in fbad[:3])))
     ctx.tie_obligations.append({'name': 'all %d configurations instantiate the intended node layout / crew / item category / traits (static_assert + printed facts)' % len(CONFIGS), 'ok': not fbad and not ferr})
-    have_model = ctx.stages.get('prove', {}).get('ok') and ctx.extract()
+    # the correspondence also runs when a PROOF broke but the executable model still compiles (make -k): a broken theorem about generated
+    # code then comes with the concrete inputs on which the real code leaves the model (e.g. node shapes), not only with the oracle's
+    have_model = ctx.extract()
     if have_model:
         cases = gen_cases(ctx, scale, True)
         impl, err = run_impl(ctx, harn, cases, 'corr', measure=True)
